@@ -145,7 +145,10 @@ def run(case):
             n = case['n']
             pd = lpexact.rank(inst['P']) == n
             d = inst['dims']
-            cfgs = [{'entry': 'coneqp', 'storage': 'dense', 'kkt': None}, {'entry': 'coneqp', 'storage': 'sparse', 'kkt': None}]
+            cfgs = [{'entry': 'coneqp', 'storage': 'dense', 'kkt': None}, {'entry': 'coneqp', 'storage': 'sparse', 'kkt': None},
+                    # P stored as its lower triangle only (the documented convention), and with junk above the diagonal
+                    {'entry': 'coneqp', 'storage': 'dense', 'kkt': None, 'junk': 0.0},
+                    {'entry': 'coneqp', 'storage': 'sparse', 'kkt': None, 'junk': 7.0}]
             if not d['q'] and not d['s']:
                 cfgs.append({'entry': 'qp', 'storage': 'dense', 'kkt': None})
             if pd:
